@@ -180,7 +180,7 @@ func checkC22(c *Check) {
 	c.AddTraces(int64(len(fcs)))
 
 	// idempotence over the corpus: decode(encode(x)) encodes to the same bytes
-	docs := genCorpus(c, map[string]int{"quick": 6, "thorough": 8}[c.Tier], "corpus")
+	docs := genCorpus(c, map[string]int{"quick": 5, "thorough": 7}[c.Tier], "corpus")
 	forCorpus(c, docs, 1, concOpts{Chunk: true}, func(abs corpusDoc, evs []AEv, cfg *configuration.Configuration) {
 		doc, rej, _ := encodeCBE(evs, cfg)
 		if rej >= 0 {
